@@ -69,3 +69,30 @@ Proof.
   - rewrite E1, filter_app. reflexivity.
   - constructor; [simpl; rewrite (decode_encode_filtered b Hb c (sts k0)); eauto|exact E2].
 Qed.
+
+(* ---------- C08 at file level, for ARBITRARY message trees ---------- *)
+(* if the unfiltered scan of a file (any trees, n workers, any worker states) succeeds with q, the
+   configured scan succeeds with exactly the kept subsequence (whatever states its workers are in).
+   Nothing is claimed when the unfiltered scan fails: a skip flag can hide an error. *)
+Lemma scan_file_from_filter c n : forall ms states1 states2 k q,
+  scan_file_from cfg_all n states1 k ms = Ok q ->
+  scan_file_from c n states2 k ms = Ok (filter (keeps c) q).
+Proof.
+  induction ms as [|m r IH]; intros states1 states2 k q H; simpl in *.
+  - injection H as <-. reflexivity.
+  - destruct (scan_block cfg_all (nth (Nat.modulo k n) states1 dstate0) m) as [[st1 q1]| |] eqn:E1; try discriminate.
+    destruct (scan_file_from cfg_all n (set_state states1 (Nat.modulo k n) st1) (S k) r) as [q'| |] eqn:E2;
+      try discriminate.
+    injection H as <-.
+    assert (Hr : scan_result cfg_all (nth (Nat.modulo k n) states1 dstate0) m = Ok q1)
+      by (unfold scan_result; rewrite E1; reflexivity).
+    pose proof (filter_is_subsequence c _ m q1 Hr) as Hf.
+    rewrite (scan_result_state_independent c _ (nth (Nat.modulo k n) states2 dstate0)) in Hf.
+    destruct (scan_result_block c _ m _ Hf) as (st2 & E3). rewrite E3.
+    rewrite (IH _ (set_state states2 (Nat.modulo k n) st2) (S k) q' E2).
+    rewrite filter_app. reflexivity.
+Qed.
+
+Theorem scan_file_filter c n ms q :
+  scan_file cfg_all n ms = Ok q -> scan_file c n ms = Ok (filter (keeps c) q).
+Proof. unfold scan_file. apply scan_file_from_filter. Qed.
